@@ -3,6 +3,7 @@ CONSTANTS
   LN = 2
   G = 2
   Emit = TRUE
+  Full = TRUE
 INVARIANTS TypeOK CellMeasure FineMonotone EmitDone
   PtExact PtCoordUniform PtEitherList PtHueOff PtHeightOff PtBounds
   UniExact UniOffArc UniHueMisplaced UniAlpha UniLowCorner UniBelowLow UniEqualEnds
